@@ -151,6 +151,10 @@ func (c *vfCall) finished() bool {
 
 func (in *vfC14Inst) Enabled() []string {
 	var evs []string
+	if in.sc.Cfg.Extra["no_ops"] != "" {
+		// a scenario about what the node itself has in flight: no API workload on top
+		return in.vfGWInst.Enabled()
+	}
 	for _, name := range vfSortedKeys(in.ops()) {
 		if !in.started[name] {
 			evs = append(evs, "op:"+name)
@@ -368,6 +372,17 @@ func vfC14Scenarios(thorough bool) []*vfGWScenario {
 				Validators: []vfValCfg{{Name: "V", Topic: "t", Inline: true, Gated: true, Verdict: "A", GateOnly: []string{"m1", "local:x"}}}},
 				Alphabet: []string{"gate:a", "pub:a:m1", "vrel:V:m1:A", "release:h"}, Msgs: msgs, Depth: d, Leaf: []string{"cancel"}})
 		}
+	}
+	// validations in flight with several asynchronous validators (default + topic) whose verdicts arrive in every
+	// order, among them a Reject that ends the collection early while the other validator is still running
+	for _, verdicts := range [][2]string{{"A", "R"}, {"R", "A"}, {"R", "R"}, {"I", "R"}} {
+		peers := []vfPeerCfg{{Name: "a", Proto: "v11", IP: "10.0.0.1"}, {Name: "h", Proto: "v11", IP: "10.0.0.2"}}
+		m2 := map[string]vfMsgSpec{"m1": {Topic: "t", Author: "x", Seq: 1, Size: 8}, "m2": {Topic: "t", Author: "x", Seq: 2, Size: 8}}
+		out = append(out, &vfGWScenario{Name: "gossip-two-async-" + verdicts[0] + verdicts[1], Cfg: vfGWCfg{Router: "gossip", Peers: peers, Topics: []string{"t"}, Params: "d2", Scoring: true, QueueSize: 2,
+			Prefix: []string{"conn:a", "sub:a:t", "conn:h", "join:t"}, Extra: map[string]string{"leak_is_violation": "1", "no_ops": "1"},
+			Validators: []vfValCfg{{Name: "D", Gated: true, Verdict: verdicts[0]}, {Name: "V", Topic: "t", Gated: true, Verdict: verdicts[1]}}},
+			Alphabet: []string{"pub:a:m1", "pub:a:m2", "vrel:D:m1:" + verdicts[0], "vrel:V:m1:" + verdicts[1], "vrel:D:m2:" + verdicts[0], "vrel:V:m2:" + verdicts[1]},
+			Msgs:     m2, Depth: d + 1, Leaf: []string{"cancel"}})
 	}
 	return out
 }
